@@ -5,7 +5,8 @@ import ast
 import itertools
 from typing import Any
 
-from ..astutil import dotted, is_const, norm, walk_body
+from ..astutil import alpha, dotted, is_const, norm, walk_body
+from ..finite import NeedAtom
 from ..dtree import decision_tree
 from ..ordertypes import OrderEval, P, R, Raised, weak_orderings
 from ..report import Checker
@@ -217,18 +218,20 @@ def r_merge_flat(ck: Checker) -> None:
     # result selection after the loop
     idx = fn.body.index(lp)
     tail = fn.body[idx + 1:]
-    leaves = decision_tree(tail, domain=lambda k: (0, 1, 2, 3) if k == f"len({acc})" else (True, False))
+    if acc is None:
+        raise Unsupported("merge_origins: accumulator of the operand loop not identified", lp)
+    leaves = decision_tree(tail, domain=lambda k: (0, 1, 2, 3) if k == f"len({acc})" else (True, False), sized=(acc,))
     bad = []
     for lf in leaves:
         n = lf.assign.get(f"len({acc})")
-        v = lf.val()
+        v = lf.rval()
         if n is None:
             bad.append("result chosen without looking at the number of remaining operands")
         elif n == 0 and v not in ("NoOrigin()", "NO_ORIGIN"):
             bad.append(f"nothing remains: returns {v}")
-        elif n == 1 and v != f"{acc}[0]":
+        elif n == 1 and v not in (f"{acc}[0]", f"{acc}[-1]"):
             bad.append(f"one operand remains: returns {v}")
-        elif n >= 2 and v not in (f"MultiOrigin(origins={acc})", f"MultiOrigin({acc})", f"MultiOrigin(origins=tuple({acc}))"):
+        elif n >= 2 and v not in (f"MultiOrigin(origins={acc})", f"MultiOrigin({acc})", f"MultiOrigin(origins=tuple({acc}))", f"MultiOrigin(tuple({acc}))"):
             bad.append(f"{n} operands remain: returns {v}")
     what = "merge_origins returns NoOrigin when nothing remains, the operand itself when one remains, otherwise one flat MultiOrigin"
     if bad:
@@ -272,21 +275,57 @@ def r_merge_flat(ck: Checker) -> None:
     (ck.holds if ok else ck.violation)("R-MERGE-FLAT", c, c.node, what, **({} if ok else {"construct": "concat_origins: fold with + not recognised"}))
     # MultiOrigin.__post_init__: source / position inferred in operand order
     m = ck.repo.func(ORIGIN, "MultiOrigin.__post_init__")
-    sets: dict[str, list[str]] = {}
-    for c2 in walk_body(m.node.body):
-        if isinstance(c2, ast.Call) and dotted(c2.func) == "object.__setattr__" and len(c2.args) == 3 and isinstance(c2.args[1], ast.Constant):
-            sets.setdefault(c2.args[1].value, []).append(norm(c2.args[2]))
     what = "MultiOrigin infers its source (common source or SourceSet) and PositionSet from the members in operand order (no sort / set)"
-    src_ok = sorted(sets.get("source", [])) == sorted(["self.origins[0].source", "SourceSet(tuple([origin.source for origin in self.origins]))"]) \
-        or sorted(sets.get("source", [])) == sorted(["self.origins[0].source", "SourceSet(tuple((origin.source for origin in self.origins)))"])
-    pos_ok = sets.get("position") in (["PositionSet(tuple([origin.position for origin in self.origins]))"],
-                                       ["PositionSet(tuple((origin.position for origin in self.origins)))"])
-    cond_ok = any(isinstance(s, ast.If) and norm(s.test) == "all((origin.source == self.origins[0].source for origin in self.origins[1:]))"
-                  for s in m.node.body)
-    if src_ok and pos_ok and cond_ok:
-        ck.holds("R-MERGE-FLAT", m, m.node, what)
+    k_common = ("all((_b0.source == self.origins[0].source for _b0 in self.origins[1:]))", "all((self.origins[0].source == _b0.source for _b0 in self.origins[1:]))",
+                "all((_b0.source == self.origins[0].source for _b0 in self.origins))", "all((self.origins[0].source == _b0.source for _b0 in self.origins))")
+    amap: dict[str, str] = {}
+
+    def common_hook(c: ast.Call, assign: dict) -> object:
+        if dotted(c.func) in ("all", "any"):
+            key = alpha(c)
+            amap[norm(c)] = key
+            if key not in assign:
+                raise NeedAtom(key, c)
+            return assign[key]
+        return NotImplemented
+
+    leaves = decision_tree(m.node.body, call_hook=common_hook, domain=lambda k: (0, 1, 2, 3) if k.startswith("len(") else (True, False))
+    bad = []
+    n_ok = 0
+    for lf in leaves:
+        a_ = lf.assign
+        n = a_.get("len(self.origins)")
+        if lf.outcome == "raise":
+            if n is None or n >= 2:
+                bad.append(f"{a_}: raises for a proper member list")
+            continue
+        if n is not None and n < 2:
+            continue  # fewer than two members accepted: not this rule's business (merge_origins never builds such)
+        others = sorted(k for k in a_ if k != "len(self.origins)")
+        if [k for k in others if k not in k_common]:
+            raise Unsupported(f"MultiOrigin.__post_init__ decides on {others}", m.node)
+        common = any(a_.get(k) for k in k_common if k in a_) if others else None
+        stmts_, _ = lf.resolved()
+        sets: dict[str, list[str]] = {}
+        for c2 in walk_body(stmts_):
+            if isinstance(c2, ast.Call) and dotted(c2.func) in ("object.__setattr__", "setattr") and len(c2.args) == 3 and isinstance(c2.args[1], ast.Constant):
+                sets.setdefault(c2.args[1].value, []).append(alpha(c2.args[2]))
+        src, pos = sets.get("source", []), sets.get("position", [])
+        if pos[-1:] != ["PositionSet(tuple((_b0.position for _b0 in self.origins)))"]:
+            bad.append(f"position is {pos}")
+        if common is None:
+            bad.append("source chosen without the common-source test")
+        elif common and src[-1:] != ["self.origins[0].source"]:
+            bad.append(f"common source: source is {src}")
+        elif not common and src[-1:] != ["SourceSet(tuple((_b0.source for _b0 in self.origins)))"]:
+            bad.append(f"different sources: source is {src}")
+        n_ok += 1
+    if bad:
+        ck.violation("R-MERGE-FLAT", m, m.node, what, construct=f"MultiOrigin.__post_init__: {bad[0]}")
+    elif not n_ok:
+        raise Unsupported("MultiOrigin.__post_init__: no accepting path found", m.node)
     else:
-        ck.violation("R-MERGE-FLAT", m, m.node, what, construct=f"MultiOrigin.__post_init__: source={sets.get('source')} position={sets.get('position')} common-source test ok={cond_ok}")
+        ck.holds("R-MERGE-FLAT", m, m.node, what, evaluations=len(leaves))
 
 
 def r_slice(ck: Checker) -> None:
